@@ -62,11 +62,12 @@ def exceeds (r : Rate) (m : Rat) : Bool :=
 
 def isScheduled (b : Bucket) (tok : Nat) : Bool := b.sched.any (·.token == tok)
 
-/-- `record_consumption_rate` -/
+/-- `record_consumption_rate` (after the D5 fix: a consumption at the same clock reading as the
+previous one leaves the tracked rate and time alone instead of storing an infinite rate) -/
 def record (b : Bucket) (amt : Nat) (now : Rat) : Bucket :=
   match b.last with
   | none => { b with last := some now, rate := .fin 0 }
-  | some _ => { b with rate := ema b amt now, last := some now }
+  | some t0 => if now - t0 ≤ 0 then b else { b with rate := ema b amt now, last := some now }
 
 def ttcOf (b : Bucket) (tok : Nat) : Rat :=
   match b.sched.find? (·.token == tok) with
